@@ -3,6 +3,7 @@
   into captions and that retime captions never create, drop or reorder characters.
 -/
 import PcVerif.Model.Scc.Finish
+import PcVerif.Lemmas.RollupLemmas
 namespace PcVerif.Props.C16
 open PcVerif PcVerif.Scc
 
@@ -64,5 +65,86 @@ theorem setEnd_preserves_nodes (stash : List Cap) (idxs : List Nat) (e : Rat) :
 
 theorem correctLast_only_times (S : Stash) (e : Rat) : (correctLast S e).stash.map (·.nodes) = S.stash.map (·.nodes) :=
   setEnd_preserves_nodes _ _ _
+
+/-! ### from the buffer into the stash -/
+
+theorem instrText_eq (l : List INode) : instrText l = itext l := by
+  induction l with
+  | nil => rfl
+  | cons n ns ih => simp [instrText, itext] at ih ⊢; rw [ih]
+
+private theorem capsText_nodes (a b : List Cap) (h : a.map (·.nodes) = b.map (·.nodes)) : capsText a = capsText b := by
+  have : ∀ l : List Cap, capsText l = (l.map (·.nodes)).flatMap (fun ns => ns.flatMap fun n => match n with | .text s _ => s | _ => []) := by
+    intro l; simp [capsText, List.flatMap_map]
+  rw [this a, this b, h]
+
+private theorem capsText_filter (l : List Cap) : capsText (l.filter fun c => !c.nodes.isEmpty) = capsText l := by
+  induction l with
+  | nil => rfl
+  | cons c cs ih =>
+    by_cases h : c.nodes.isEmpty = true
+    · simp only [List.filter_cons, h, Bool.not_true, Bool.false_eq_true, if_false, ih]
+      simp [capsText, List.isEmpty_iff.mp h]
+    · simp only [List.filter_cons, h, Bool.not_false, if_true]
+      simp only [capsText, List.flatMap_cons] at ih ⊢
+      rw [ih]
+
+/-- **C16 (storing a buffer).** `create_and_store` appends exactly the visible characters of the buffer to the stash —
+    whatever the buffer holds (italics, repositionings, breaks, trailing blanks) and whatever retiming it triggers -/
+theorem store_conserves_text (S : Stash) (c : Creator) (a b : Rat) :
+    vis (capsText (store S c a b).stash) = vis (capsText S.stash) ++ vis (itext c.coll) := by
+  unfold store
+  by_cases he : c.isEmpty = true
+  · -- nothing displayable in the buffer: nothing stored, and nothing visible was in it
+    have hv : itext c.coll = [] := by
+      have : ∀ l : List INode, (!l.any fun n => !n.text.isEmpty) = true → itext l = [] := by
+        intro l
+        induction l with
+        | nil => intro _; rfl
+        | cons n ns ih =>
+          intro h
+          simp only [List.any_cons, Bool.not_or, Bool.and_eq_true, Bool.not_not, List.isEmpty_iff] at h
+          simp [itext, h.1, ih (by simpa using h.2)]
+      exact this c.coll he
+    simp [he, hv, vis]
+  · simp only [he, Bool.false_eq_true, if_false]
+    have hnew : capsText ((toCaps a b [{ start := a, stop := b }] (formatItalics c.coll)).filter fun cp => !cp.nodes.isEmpty)
+        = itext (formatItalics c.coll) := by
+      rw [capsText_filter, toCaps_conserves_text _ _ _ _ (by simp), instrText_eq]
+      simp [capsText]
+    have hold : ∀ st : List Cap, st.map (·.nodes) = S.stash.map (·.nodes) → 
+        vis (capsText (st ++ (toCaps a b [{ start := a, stop := b }] (formatItalics c.coll)).filter fun cp => !cp.nodes.isEmpty))
+          = vis (capsText S.stash) ++ vis (itext c.coll) := by
+      intro st hst
+      have : capsText (st ++ (toCaps a b [{ start := a, stop := b }] (formatItalics c.coll)).filter fun cp => !cp.nodes.isEmpty)
+          = capsText st ++ itext (formatItalics c.coll) := by
+        rw [← hnew]; simp [capsText]
+      rw [this, vis_append, ivis_formatItalics, capsText_nodes st S.stash hst]
+    -- whichever branch retimes the last batch, the stash keeps its nodes
+    split
+    · split
+      · split
+        · split
+          · exact hold _ (setEnd_preserves_nodes _ _ _)
+          · exact hold _ rfl
+        · exact hold _ rfl
+      · exact hold _ rfl
+    · exact hold _ rfl
+
+/-- **C16 (roll-up flush).** at a carriage return the visible characters of the roll-up buffer move into the stash, in
+    order, and the buffer is left empty; the retiming that follows touches times only -/
+theorem rollUp_conserves_text (r : Reader) :
+    vis (capsText (rollUp r).S.stash) = vis (capsText r.S.stash) ++ vis (itext r.buf.coll) := by
+  unfold rollUp
+  simp only [Reader.now]
+  have key : ∀ (r' : Reader) (t : Rat), capsText (correctLast r'.S t).stash = capsText r'.S.stash := by
+    intro r' t
+    exact capsText_nodes _ _ (correctLast_only_times _ _)
+  split <;> (simp only [key]; cases r.active <;> simp [Reader.setBuf, store_conserves_text])
+
+/-- **C16 (characters enter the buffer once).** `add_chars` extends the text of the buffer by exactly the characters of
+    the word, whatever nodes the position tracker makes it insert first (break, repositioning, fresh text node) -/
+theorem addChars_appends_text (c : Creator) (t : Tracker) (chars : Str) :
+    itext (addChars c t chars).1.coll = itext c.coll ++ chars := itext_addChars c t chars
 
 end PcVerif.Props.C16
